@@ -65,3 +65,31 @@ func HexEncodeToString(src []byte) string {
 	}
 	return string(dst)
 }
+
+// ParseUint models strconv.ParseUint for base 10 / 64 bits and at most 18 characters, where
+// no overflow is possible, so the loop needs no overflow checks (the real function's
+// cutoff comparisons on a symbolic accumulator cost the solver minutes). Longer inputs or
+// other bases are outside the model.
+func ParseUint(s string, base int, bitSize int) (uint64, error) {
+	if base != 10 || (bitSize != 64 && bitSize != 0) || len(s) > 18 {
+		panic("models.ParseUint: only base 10, 64 bits, <= 18 characters are modelled")
+	}
+	if len(s) == 0 {
+		return 0, errSyntax
+	}
+	n := uint64(0)
+	for i := 0; i < len(s); i++ {
+		c := s[i]
+		if c < '0' || c > '9' {
+			return 0, errSyntax
+		}
+		n = n*10 + uint64(c-'0')
+	}
+	return n, nil
+}
+
+var errSyntax = errorString("strconv: invalid syntax")
+
+type errorString string
+
+func (e errorString) Error() string { return string(e) }
